@@ -34,6 +34,12 @@ struct Config {
   size_t max_live_bytes = 192u << 20;
   size_t max_live_blocks = 20000;
   uint64_t size_cap = 0;           // 0 = profile default
+  std::string generic;             // if set: what the generic oracles (overlap, contents, crash, unexpected error) refute
+  int  size_mode = 0;              // 0 default mix, 1 mostly >= 1 MiB (large and huge)
+  int  workload = 0;               // OS profiles: which workload
+  std::string faults;              // fault plan  cls:k:persistent:errno[:subkind];...
+  int  reps = 6;                   // ledger profile: repetitions
+  std::string scenario = "all";    // purge profile: pages | segments | all
   int  trace = 0;
 };
 
@@ -83,6 +89,9 @@ struct State {
   std::map<size_t, uint64_t> align_hist;
   std::set<uintptr_t> dirty_freed;  // addresses of blocks that were freed while completely dirty (bounded)
   uint64_t hash = 1469598103934665603ull;  // hash of the executed op list
+  int  force_heap = -1;           // >= 0: heap_* entry points use this heap index
+  bool walk_disabled = false;     // after a forged free-list link was consumed the allocator legitimately lost free blocks: walks are not judged any more
+  bool region_check = false;      // every returned pointer must lie inside memory mimalloc obtained from the OS (C17)
   bool pending_remote = false;    // cross-thread frees were issued since the last collect (C12: walks are judged without pending remote frees)
   int foreign_live = 0;           // blocks allocated by exited helper threads that are not yet attributed to a heap
   // phase
@@ -94,6 +103,9 @@ extern State* G;
 // engine API (drv_seq.cpp)
 const char* generic_refutes();
 void   run_history(State& S);
+void   history_begin(State& S);
+void   history_step(State& S);
+void   history_end(State& S);
 void   checkpoint(State& S, bool full_walk);
 size_t conservation_count(State& S);
 void   check_conservation(State& S, const char* when, const char* refutes);
@@ -109,6 +121,6 @@ void run_malformed(State& S);   // C06  (seq_malformed.cpp)
 void run_hardening(State& S);   // C17  (seq_harden.cpp)
 void run_os_profile(State& S);  // C07 / C11 / C18 (seq_os.cpp)
 void run_arena_profile(State& S); // C15 (seq_arena.cpp)
-void extra_result_body(FILE* f);
+void add_result_printer(void (*fn)(FILE*));   // extra  ,"key":value  fragments for the VFRESULT object
 
 } // namespace seq
